@@ -321,7 +321,9 @@ impl TimeZone {
             let possible = self.get_possible_epoch_ns_for(earlier, provider)?;
             // f. Assert: possibleEpochNs is not empty.
             // g. Return possibleEpochNs[0].
-            return Ok(possible[0]);
+            // NOTE: the assertion depends on the answers of the provider, so it is reported
+            // as an error rather than relied upon.
+            return possible.first().copied().ok_or_else(no_candidate_after_gap);
         }
         // 17. Assert: disambiguation is compatible or later.
         // 18. Let timeDuration be TimeDurationFromComponents(0, 0, 0, 0, 0, nanoseconds).
@@ -340,10 +342,9 @@ impl TimeZone {
         // 22. Set possibleEpochNs to ? GetPossibleEpochNanoseconds(timeZone, laterDateTime).
         let possible = self.get_possible_epoch_ns_for(later, provider)?;
         // 23. Set n to possibleEpochNs's length.
-        let n = possible.len();
         // 24. Assert: n ≠ 0.
         // 25. Return possibleEpochNs[n - 1].
-        Ok(possible[n - 1])
+        possible.last().copied().ok_or_else(no_candidate_after_gap)
     }
 
     pub(crate) fn get_start_of_day(
@@ -393,6 +394,11 @@ impl TimeZone {
         // 7. Return possibleEpochNsAfter[0].
         EpochNanoseconds::try_from(i128::from(transition_epoch) * 1_000_000_000)
     }
+}
+
+fn no_candidate_after_gap() -> TemporalError {
+    TemporalError::range()
+        .with_message("The time zone provider has no instant for a time shifted out of a gap.")
 }
 
 #[cfg(test)]
